@@ -92,7 +92,9 @@ class Ctx:
                     entry = k
                     break
             if entry is not None:
-                lines.append(f"KNOWN-FINDING: property={self.prop} {entry['what']} [{f['key']}]")
+                line = f"KNOWN-FINDING: property={self.prop} {entry['what']}"
+                if line not in lines:
+                    lines.append(line)
             else:
                 unknown.append(f)
         for f in unknown[:5]:
